@@ -37,6 +37,10 @@ func main() {
 		show(os.Args[2])
 		return
 	}
+	if len(os.Args) > 3 && os.Args[1] == "showlay" {
+		showLay(os.Args[2], os.Args[3])
+		return
+	}
 	vh.Main(gen, run)
 }
 
@@ -334,6 +338,8 @@ type hclCtx struct {
 	// of the options of all types; a `*[]string` / `*map` field handed null becomes an EMPTY collection, not a nil
 	// pointer, and is written as a key the type does not know)
 	skipNull map[string]bool
+	// layout of the file as a generated dimension (layout.go; nil: the fixed layout)
+	lay *hclLay
 }
 
 func (c *hclCtx) local(expr string) string {
@@ -380,6 +386,9 @@ func (c *hclCtx) used(fn string) { c.usedFns[fn]++ }
 
 func (c *hclCtx) str(x string) string {
 	if !c.useLocals || c.r.Intn(3) != 0 {
+		if c.lay != nil {
+			return c.lay.str(x)
+		}
 		return hq(x)
 	}
 	switch c.r.Intn(8) {
@@ -651,21 +660,25 @@ func label(v *s.V, key string) string {
 // fnUse counts how often each HCL function was used by the printers of this process
 var fnUse = map[string]int{}
 
-func toHCL(v *s.V, useLocals bool, r *vh.Rand) string {
-	c := &hclCtx{useLocals: useLocals, r: r, usedFns: fnUse}
+func toHCL(v *s.V, useLocals bool, r *vh.Rand) string { return toHCLLay(v, useLocals, r, nil) }
+
+func toHCLLay(v *s.V, useLocals bool, r *vh.Rand, lay *hclLay) string {
+	c := &hclCtx{useLocals: useLocals, r: r, usedFns: fnUse, lay: lay}
 	var b strings.Builder
 	for _, src := range listOf(v.Get("variable_sources")) {
+		c.mark(&b, 1)
 		fmt.Fprintf(&b, "variable_source %s %s {\n", label(src, "name"), label(src, "type"))
 		c.skipNull = map[string]bool{"fields": src.Get("type").S != "file/csv", "variables": src.Get("type").S != "variables"}
-		for _, k := range []string{"file", "fields", "ignore_first_line", "delimiter", "variables"} {
+		for _, k := range c.keys([]string{"file", "fields", "ignore_first_line", "delimiter", "variables"}) {
 			c.attr(&b, "  ", k, src.Get(k))
 		}
 		b.WriteString("}\n")
 	}
 	c.skipNull = nil
 	for _, req := range listOf(v.Get("requests")) {
+		c.mark(&b, 2)
 		fmt.Fprintf(&b, "request %s {\n", label(req, "name"))
-		for _, k := range []string{"method", "uri", "headers", "tag", "body"} {
+		for _, k := range c.keys([]string{"method", "uri", "headers", "tag", "body"}) {
 			c.attr(&b, "  ", k, req.Get(k))
 		}
 		if p := req.Get("preprocessor"); p != nil {
@@ -677,7 +690,7 @@ func toHCL(v *s.V, useLocals bool, r *vh.Rand) string {
 			fmt.Fprintf(&b, "  postprocessor %s {\n", label(p, "type"))
 			isAssert := p.Get("type") != nil && p.Get("type").S == "assert/response"
 			c.skipNull = map[string]bool{"mapping": isAssert, "headers": !isAssert, "body": !isAssert}
-			for _, k := range []string{"mapping", "headers", "body", "status_code"} {
+			for _, k := range c.keys([]string{"mapping", "headers", "body", "status_code"}) {
 				c.attr(&b, "    ", k, p.Get(k))
 			}
 			if sz := p.Get("size"); sz != nil {
@@ -697,8 +710,9 @@ func toHCL(v *s.V, useLocals bool, r *vh.Rand) string {
 		b.WriteString("}\n")
 	}
 	for _, call := range listOf(v.Get("calls")) {
+		c.mark(&b, 3)
 		fmt.Fprintf(&b, "call %s {\n", label(call, "name"))
-		for _, k := range []string{"tag", "call", "metadata", "payload"} {
+		for _, k := range c.keys([]string{"tag", "call", "metadata", "payload"}) {
 			c.attr(&b, "  ", k, call.Get(k))
 		}
 		for _, p := range listOf(call.Get("preprocessors")) {
@@ -715,11 +729,15 @@ func toHCL(v *s.V, useLocals bool, r *vh.Rand) string {
 		b.WriteString("}\n")
 	}
 	for _, sc := range listOf(v.Get("scenarios")) {
+		c.mark(&b, 4)
 		fmt.Fprintf(&b, "scenario %s {\n", label(sc, "name"))
-		for _, k := range []string{"weight", "min_waiting_time", "requests"} {
+		for _, k := range c.keys([]string{"weight", "min_waiting_time", "requests"}) {
 			c.attr(&b, "  ", k, sc.Get(k))
 		}
 		b.WriteString("}\n")
+	}
+	if c.lay != nil {
+		return c.lay.assemble(b.String(), c.blocks)
 	}
 	if c.blocks != nil {
 		// several locals blocks: a block may refer to any block above it and overrides the names of those blocks
@@ -956,6 +974,10 @@ func gen(r *vh.Rand, tier string) []string {
 	for i := 0; i < n/3; i++ {
 		out = append(out, genPrv(r))
 	}
+	// the layout of the file as a generated dimension (layout.go)
+	for i := 0; i < n/2; i++ {
+		out = append(out, genLay(r))
+	}
 	// format selection by the file name
 	for i := 0; i < n/5; i++ {
 		out = append(out, genExt(r))
@@ -1118,6 +1140,10 @@ func run(cases []string) []string {
 		}
 		if f[0] == "ext" {
 			out = append(out, rn.runExt(f))
+			continue
+		}
+		if f[0] == "lay" {
+			out = append(out, rn.runLay(f))
 			continue
 		}
 		if f[0] == "prv" {
